@@ -1,5 +1,5 @@
 /-
-  Lemmas about the two HTML escapers (soyhtml.htmlEscapeString and text/template.HTMLEscapeString)
+  Lemmas about the HTML escaper (soyhtml.htmlEscapeString, which the escaping directives share since /repo c835e8f)
   against the specification decoder of Spec/Html.lean.  Everything is per output "piece"
   (the bytes written for one input byte) and then a one-line induction.
 -/
@@ -46,7 +46,7 @@ theorem ampsStartRefs_iff (s : Bytes) :
 /-! ### soyhtml.htmlEscapeString -/
 
 theorem htmlPiece_cases (b : UInt8) :
-    (b = 34 ∧ htmlPiece b = [38, 35, 51, 52, 59]) ∨ (b = 39 ∧ htmlPiece b = [38, 35, 51, 57, 59]) ∨
+    (b = 34 ∧ htmlPiece b = [38, 113, 117, 111, 116, 59]) ∨ (b = 39 ∧ htmlPiece b = [38, 35, 51, 57, 59]) ∨
     (b = 38 ∧ htmlPiece b = [38, 97, 109, 112, 59]) ∨ (b = 60 ∧ htmlPiece b = [38, 108, 116, 59]) ∨
     (b = 62 ∧ htmlPiece b = [38, 103, 116, 59]) ∨
     (b ≠ 34 ∧ b ≠ 39 ∧ b ≠ 38 ∧ b ≠ 60 ∧ b ≠ 62 ∧ htmlPiece b = [b]) := by
@@ -101,63 +101,5 @@ theorem htmlUnescape_htmlEscape (s : Bytes) : htmlUnescape (htmlEscape s) = s :=
   induction s with
   | nil => rfl
   | cons b r ih => rw [htmlEscape, unesc_piece, ih]
-
-/-! ### text/template.HTMLEscapeString -/
-
-/-- what a NUL-sanitising escaper makes of the value: NUL becomes U+FFFD -/
-def nulToFFFD (s : Bytes) : Bytes := s.flatMap fun b => if b = 0 then [239, 191, 189] else [b]
-
-theorem goHtmlPiece_cases (b : UInt8) :
-    (b = 0 ∧ goHtmlPiece b = [239, 191, 189]) ∨ (b ≠ 0 ∧ goHtmlPiece b = htmlPiece b) := by
-  by_cases h0 : b = 0
-  · subst h0; left; simp [goHtmlPiece, goHtmlRepl]
-  · right; simp [goHtmlPiece, goHtmlRepl, htmlPiece, htmlRepl, h0]
-
-theorem goHtmlEscape_eq_of_nulFree (s : Bytes) (h : ∀ b ∈ s, b ≠ 0) : goHtmlEscape s = htmlEscape s := by
-  induction s with
-  | nil => rfl
-  | cons b r ih =>
-    have hb : b ≠ 0 := h b (by simp)
-    rcases goHtmlPiece_cases b with ⟨h0, _⟩ | ⟨_, hp⟩
-    · exact absurd h0 hb
-    · rw [goHtmlEscape, htmlEscape, hp, ih (fun c hc => h c (by simp [hc]))]
-
-theorem goHtmlEscape_noRaw (s : Bytes) : noRawSpecial (goHtmlEscape s) = true := by
-  induction s with
-  | nil => rfl
-  | cons b r ih =>
-    rw [goHtmlEscape, noRawSpecial_append, ih]
-    rcases goHtmlPiece_cases b with ⟨_, hp⟩ | ⟨_, hp⟩ <;> rw [hp]
-    · decide
-    · rw [noRaw_piece]; rfl
-
-theorem goHtmlEscape_amps (s : Bytes) : ampsStartRefs (goHtmlEscape s) = true := by
-  induction s with
-  | nil => rfl
-  | cons b r ih =>
-    rw [goHtmlEscape]
-    rcases goHtmlPiece_cases b with ⟨_, hp⟩ | ⟨_, hp⟩ <;> rw [hp]
-    · simp [ampsStartRefs, ih]
-    · rw [amps_piece, ih]
-
-theorem htmlUnescape_goHtmlEscape (s : Bytes) : htmlUnescape (goHtmlEscape s) = nulToFFFD s := by
-  unfold htmlUnescape
-  induction s with
-  | nil => rfl
-  | cons b r ih =>
-    rw [goHtmlEscape]
-    rcases goHtmlPiece_cases b with ⟨h0, hp⟩ | ⟨h0, hp⟩ <;> rw [hp]
-    · subst h0
-      simp [htmlUnescapeGo, matchRef, htmlRefs, ih, nulToFFFD]
-    · rw [unesc_piece, ih]; simp [nulToFFFD, h0]
-
-theorem nulToFFFD_of_nulFree (s : Bytes) (h : ∀ b ∈ s, b ≠ 0) : nulToFFFD s = s := by
-  induction s with
-  | nil => rfl
-  | cons b r ih =>
-    have hb : b ≠ 0 := h b (by simp)
-    have := ih (fun c hc => h c (by simp [hc]))
-    simp only [nulToFFFD] at this ⊢
-    simp [hb, this]
 
 end SoyVerif.Lemmas.EscapeHtml
